@@ -125,7 +125,15 @@ class _CheckingJacobian(DictionaryJacobian):
         super().__init__(system)
 
     def _setup(self, system):
-        self._subjacs_info = self._subjacs_info.copy()
+        # our own copy of the metadata AND of the values: the approximations write into the
+        # values in place, and the system's own (possibly constant, never recomputed) partials
+        # must not change because they were checked.
+        subjacs_info = {}
+        for key, meta in self._subjacs_info.items():
+            subjacs_info[key] = meta = meta.copy()
+            if hasattr(meta['val'], 'copy'):  # ndarray or scipy sparse matrix
+                meta['val'] = meta['val'].copy()
+        self._subjacs_info = subjacs_info
 
         self._setup_index_maps(system)
         self._subjacs = self._get_subjacs(system)
